@@ -66,6 +66,25 @@ def main():
                     out.write(core.dumps({"timeout": True, "case_id": spec.get("case_id"), "spec": spec, "violations": []}) + "\n")
                     out.flush()
                     continue
+                np_ = e if type(e).__name__ == "NoProgress" else getattr(e, "__cause__", None)
+                if type(np_).__name__ == "NoProgress":
+                    # the loop guard's logical budget ran out inside a repository loop that is bounded by design
+                    tbn = traceback.extract_tb(np_.__traceback__)
+                    frames = [fr for fr in tbn if os.path.abspath(fr.filename).startswith(repo + os.sep)]
+                    where = "%s:%s" % (os.path.basename(frames[-1].filename), frames[-1].name) if frames else "?"
+                    txtn = "".join(traceback.format_exception(type(np_), np_, np_.__traceback__))
+                    if getattr(mod, "NO_PROGRESS_IS_VIOLATION", False):
+                        rec = {"violations": [{"clause": "no_progress", "mechanism": "loop_bounded_by_design_does_not_terminate",
+                                               "features": {"where": where, "direction": spec.get("direction", spec.get("d"))},
+                                               "detail": {"message": str(np_), "traceback": txtn[-1200:]}}], "sig": "noprogress", "nontrivial": False}
+                    else:
+                        rec = {"timeout": True, "no_progress": where}
+                    rec["case_id"] = spec.get("case_id")
+                    rec["spec"] = spec
+                    rec.setdefault("violations", [])
+                    out.write(core.dumps(rec) + "\n")
+                    out.flush()
+                    continue
                 tb = traceback.extract_tb(e.__traceback__)
                 in_repo = bool(tb) and os.path.abspath(tb[-1].filename).startswith(repo + os.sep)
                 txt = "".join(traceback.format_exception(type(e), e, e.__traceback__))
